@@ -220,13 +220,17 @@ def roundtrip(ctx, cs, seed):
     os.close(fd)
     os.remove(path)
     try:
-        variants = [('save(path) fresh', mid), ('save(path) existing', mid), ('save(path) existing again', mid),
-                    ('copy.copy', copy.copy(mid)), ('copy.deepcopy', copy.deepcopy(mid)),
-                    ('loaded', MidiFile(file=io.BytesIO(b), charset=cs))]
-        try:
-            variants.append(('pickle', pickle.loads(pickle.dumps(mid))))
-        except pickle.PicklingError:
-            pass            # (a text of a locally defined class cannot be pickled: the harness's own doing)
+        variants = [('save(path) fresh', mid), ('save(path) existing', mid), ('save(path) existing again', mid)]
+        for label, make in (('copy.copy', lambda: copy.copy(mid)), ('copy.deepcopy', lambda: copy.deepcopy(mid)),
+                            ('loaded', lambda: MidiFile(file=io.BytesIO(b), charset=cs)),
+                            ('pickle', lambda: pickle.loads(pickle.dumps(mid)))):
+            try:
+                variants.append((label, make()))
+            except pickle.PicklingError:
+                pass            # (a text of a locally defined class cannot be pickled: the harness's own doing)
+            except Exception as exc:
+                ctx.fail('file payload == text.encode(charset)', f'same-file-other-way:{label}:cannot-be-made:{type(exc).__name__}', case,
+                         f'{type(exc).__name__}: {exc}'[:300])
         for label, obj in variants:
             try:
                 if label.startswith('save(path)'):
